@@ -228,6 +228,8 @@ def run(facts, tier):
             res.add(Finding("R12-4", "%s::insert_by_id" % ty, "%s: the hierarchy test starts at the parent (HasParent::ancestor) and there is no "
                             "`value.id() == self.id()` test: inserting a node into itself is not refused" % f["path"], f["file"], f["line"], {}))
     res.functions_analysed = 6 + len(WHO_MAY_CALL)
+    import registry
+    registry.rule(facts, res, "R12-6")
     import staleidx
     staleidx.rule(facts, res, "R12-5", lambda f: f["crate"] in ("xml_info", "xml_dom"), floor=7)
     return res
